@@ -5,9 +5,9 @@
 #   tools/matrix_par.sh /tmp/iso1 /tmp/iso2 /tmp/iso3
 set -u
 N=$#
-OUT=/verif/seeded/OWN.txt
+OUT=${OUT:-/verif/seeded/OWN.txt}
 TMP=$(mktemp -d)
-ls -d /verif/seeded/C*-[mf]* > $TMP/all
+if [ -n "${SEEDS_FILE:-}" ]; then cp "$SEEDS_FILE" $TMP/all; else ls -d /verif/seeded/C*-[mf]* > $TMP/all; fi
 i=0
 for ISO in "$@"; do
   (
